@@ -380,7 +380,7 @@ _build_cache = {}
 
 def alphabet_of(text):
     used = []
-    for w, probe in (("a", "'a'"), ("b", "'b'"), ("c", "'c'"), (",", "','"), ("(", "'('"), (")", "')'"), ("s", '"s"')):
+    for w, probe in (("a", "'a'"), ("b", "'b'"), ("c", "'c'"), ("d", "'d'"), (",", "','"), ("(", "'('"), (")", "')'"), ("s", '"s"')):
         if probe in text:
             used.append(w)
     if "NAME" in text:
